@@ -519,12 +519,13 @@ def _hyp_worker(world, prop, seed, tier, w, n, wfd):
                   suppress_health_check=list(HealthCheck), print_blob=False)
         @given(st.randoms(use_true_random=False))
         def test(rnd):
+            program = world.gen(rnd, tier)
             if state["last_fail"] is not None:
                 # shrinking phase: bounded, the driver's own ddmin continues from the smallest real failure
+                # (the program is still drawn so that data generation stays consistent for Hypothesis)
                 state["shrink_left"] = state.get("shrink_left", 120) - 1
                 if state["shrink_left"] < 0:
-                    raise AssertionError("shrink budget exhausted")
-            program = world.gen(rnd, tier)
+                    raise AssertionError(state["last_fail"]["oracle"])
             res = run_forked(world, program)
             out["examples"] += 1
             if res["ok"] is False:
